@@ -68,6 +68,38 @@ pub fn families(k: usize, r: usize) -> Vec<(String, Vec<usize>, Vec<usize>)> {
         }
     }
 
+    // h. configurations whose work area reaches beyond position 32768 (locator values are computed modulo 65535
+    //    and both 0 and 65535 occur there): scattered losses, many different erasure sets, each exactly
+    //    sufficient and with one surplus recovery shard
+    {
+        let high_end = pow2ceil(r) + k;
+        let low_end = pow2ceil(k) + r;
+        if high_end.max(low_end) > 32768 && m >= 3 {
+            for t in 0..12u64 {
+                let mult = 2654435761u64.wrapping_add(t * 40503 * 2) | 1;
+                let nloss = [3usize, 7, m.min(50), m.min(400)][(t % 4) as usize];
+                let mut lost: Vec<usize> = (0..nloss as u64).map(|x| ((x + 1 + t).wrapping_mul(mult) >> 7) as usize % k).collect();
+                lost.sort();
+                lost.dedup();
+                let og: Vec<usize> = { let mut it = lost.iter().peekable(); (0..k).filter(|i| if it.peek() == Some(&i) { it.next(); false } else { true }).collect() };
+                let mut rg: Vec<usize> = (0..lost.len() as u64 + 1).map(|x| ((x + 3 + t).wrapping_mul(mult ^ 0x5bd1e995) >> 9) as usize % r).collect();
+                rg.sort();
+                rg.dedup();
+                let mut j = 0;
+                while rg.len() < lost.len() + 1 && j < r {
+                    if !rg.contains(&j) { rg.push(j); }
+                    j += 1;
+                }
+                rg.sort();
+                if rg.len() == lost.len() + 1 {
+                    out.push((format!("scatter{t}-surplus"), og.clone(), rg.clone()));
+                    rg.pop();
+                    out.push((format!("scatter{t}-exact"), og, rg));
+                }
+            }
+        }
+    }
+
     // a. maximum loss, first recovery shards, keep the last originals
     out.push(("maxloss-first".into(), (m..k).collect(), (0..m).collect()));
     // b. maximum loss, last recovery shards, keep the first originals
@@ -431,7 +463,7 @@ pub fn run(ctx: &Ctx, rep: &mut Report) {
     let big: Vec<(usize, usize)> = if ctx.thorough() {
         vec![(255, 1), (256, 256), (257, 255), (1000, 100), (100, 1000), (4095, 4097), (32768, 32768), (61440, 4096), (4096, 61440), (65534, 2), (2, 65534), (65535, 1), (1, 65535)]
     } else {
-        vec![(255, 1), (257, 255), (100, 1000), (4095, 4097), (65535, 1), (10000, 10000), (1000, 20000), (20000, 1000), (32768, 32768)]
+        vec![(255, 1), (257, 255), (100, 1000), (4095, 4097), (65535, 1), (10000, 10000), (1000, 20000), (20000, 1000), (32768, 32768), (40000, 1000), (1000, 40000), (30000, 3000)]
     };
     let big: Vec<(usize, usize)> = if ctx.thorough() { big.into_iter().chain([(10000, 10000), (1000, 20000), (20000, 1000), (16385, 3), (3, 16385), (8193, 8193)]).collect() } else { big };
     let mut fam_specs: Vec<GroupSpec> = Vec::new();
@@ -496,7 +528,7 @@ pub fn run(ctx: &Ctx, rep: &mut Report) {
         let fams = families(g.k, g.r);
         let (mut n, mut adds, mut nt) = (0u64, 0u64, 0u64);
         let mut sample = None;
-        let cap = if i < grid_end { 12 } else if thorough || s.k + s.r <= 1200 { usize::MAX } else { 14 };
+        let cap = if i < grid_end { 12 } else if thorough || s.k + s.r <= 1200 { usize::MAX } else { 38 };
         for (name, og, rg) in fams.iter().take(cap) {
             n += 1;
             adds += (og.len() + rg.len()) as u64 + 1;
@@ -534,6 +566,6 @@ pub fn run(ctx: &Ctx, rep: &mut Report) {
     }
     rep.extra("family_groups", J::i(fam_specs.len()));
     rep.extra("family_cases", J::i(fam_cases));
-    rep.bound("family_prefix_quick", J::s("quick: configurations with more than 1200 shards run the first 14 patterns of the (fixed-order) family list; thorough runs all"));
+    rep.bound("family_prefix_quick", J::s("quick: configurations with more than 1200 shards run the first 38 patterns of the (fixed-order) family list (hyperplane halves, then 24 scattered erasure sets - exact and with one surplus shard - where the work area reaches beyond position 32768, then the maximum-loss / window patterns); thorough runs all"));
 }
 
